@@ -162,9 +162,9 @@ compact_array_tuple_sketch<Array, Allocator> compact_array_tuple_sketch<Array, A
     read<uint32_t>(is); // unused
     if (!is.good()) throw std::runtime_error("error reading from std::istream");
     checker<true>::check_num_entries(num_entries);
+    std::vector<uint64_t, AllocU64> keys(allocator);
+    read_in_chunks(is, keys, num_entries); // fails before a large allocation if the stream cannot back the count
     entries.reserve(num_entries);
-    std::vector<uint64_t, AllocU64> keys(num_entries, 0, allocator);
-    read(is, keys.data(), num_entries * sizeof(uint64_t));
     for (size_t i = 0; i < num_entries; ++i) {
       if (!is.good()) throw std::runtime_error("error reading from std::istream");
       Array summary(num_values, 0, allocator);
